@@ -125,7 +125,11 @@ func WorkerMain(id string, tier Tier, raceBuild bool, out string, onlyCase strin
 	_ = os.RemoveAll(work)
 	_ = os.MkdirAll(work, 0o755)
 	c := &Ctx{Res: res, Tier: tier, RaceBuild: raceBuild, OnlyCase: onlyCase, WorkDir: work}
+	StartStallMonitor()
 	p.Run(c)
+	if n := StallCount(); n > 0 {
+		res.Count("process_stalls_over_1500ms_observed", int64(n))
+	}
 	_ = os.RemoveAll(work)
 	data, err := json.Marshal(res.Export())
 	if err != nil {
